@@ -36,7 +36,8 @@ def budget(tier):
 @st.composite
 def _case(draw, tier):
     return dict(mesh=draw(meshgen.mesh_spec(tier)), A=draw(meshgen.field_coefs(2)), f=draw(meshgen.field_coefs(3)),
-                lin=[draw(gen.rf(-2, 2)), draw(gen.rf(-2, 2)), draw(gen.rf(-2, 2))], ascale=draw(gen.rf(0.0, 3.0)))
+                lin=[draw(gen.rf(-2, 2)), draw(gen.rf(-2, 2)), draw(gen.rf(-2, 2))], ascale=draw(gen.rf(0.0, 3.0)),
+                smooth_copy=draw(st.sampled_from([0, 0, 0, 1, 4])))
 
 
 def strategy(tier):
@@ -69,6 +70,25 @@ def check_case(spec):
     res.nontrivial = n >= 20 and interior >= 1
     a = mesh.areas
 
+    if spec.get("smooth_copy"):
+        # a relaxed copy was requested through the documented Mesh.smooth() (returns a new mesh); the original is used afterwards
+        try:
+            mesh.smooth(int(spec["smooth_copy"]))
+        except ValueError as exc:
+            if "Malformed Voronoi" not in str(exc):
+                raise
+            res.label("smoothed copy refused (malformed Voronoi cell)")
+        res.label("history: smoothed copy requested, original used")
+    # the builders hand out independent matrices: a caller that rescales what it got in place (e.g. `gradient /= xi`) must not
+    # change what the next call returns
+    first = [ops.build_divergence(mesh), ops.build_gradient(mesh), ops.build_laplacian(mesh)[0], ops.build_neumann_boundary_laplacian(mesh)]
+    keep = [m.copy() for m in first]
+    for m in first:
+        m.data *= 2.5
+    again = [ops.build_divergence(mesh), ops.build_gradient(mesh), ops.build_laplacian(mesh)[0], ops.build_neumann_boundary_laplacian(mesh)]
+    for name, k0, a1 in zip(("divergence", "gradient", "laplacian", "boundary operator"), keep, again):
+        if k0.shape != a1.shape or abs(k0 - a1).max() != 0:
+            res.fail("C03.builder_aliasing", f"the {name} built a second time differs from the first build after the caller rescaled the first result in place")
     D = ops.build_divergence(mesh)
     G = ops.build_gradient(mesh)
     L, _ = ops.build_laplacian(mesh)
